@@ -145,6 +145,17 @@ def mutable_ids(obj, skip_exceptions=True):
             keep.append(o)
             for k, v in d.items():
                 walk(v, f"{path}.{k}", depth + 1)
+            # what the object hands out through its public attributes counts as well (a reference kept behind a
+            # weak reference or a lazily resolved handle is still a reference the caller can reach and mutate)
+            for cls, names in _public_table():
+                if isinstance(o, cls):
+                    for n in names:
+                        try:
+                            v = getattr(o, n)
+                        except Exception:  # noqa
+                            continue
+                        walk(v, f"{path}.{n}", depth + 1)
+                    break
 
     walk(obj, type(obj).__name__)
     out["__keep__"] = keep  # keeps the walked objects alive as long as the result
